@@ -515,7 +515,7 @@ def gen_tenpy(ctx, rng):
         return t, 'terms'
     from tenpy.linalg.truncation import TruncationError
     from tenpy.tools.params import Config
-    if rng.random() < 0.5:
+    if rng.random() < 0.3:
         return TruncationError(float(rng.random() * 1e-3), float(1 - rng.random() * 1e-3)), 'TruncationError'
     c = Config({'a': 1, 'sub': {'b': 2.5, 'arr': np.arange(3)}, 'name_with space': 'x'}, 'verif')
     c.subconfig('sub')
@@ -534,6 +534,17 @@ def gen_graph(ctx, rng, depth=0, pool=None, kinds=None):
             obj, kind = gen_tenpy(ctx, rng)
             kinds.append(kind)
             pool.append(obj)
+            inner = [getattr(obj, a_, None) for a_ in ('options', 'lat', 'H_MPO', 'chinfo', 'leg')]
+            inner = [x for x in inner if x is not None and _is_tenpy(x)]
+            if inner and rng.random() < 0.35:
+                # an object next to one of its own parts (e.g. results = {'model': M, 'model_params': M.options}): shared by reference
+                part = inner[int(rng.integers(len(inner)))]
+                kinds.append('shared')
+                kinds.append('list')
+                ctx.count('gen.object_next_to_its_part')
+                out = [obj, part] if rng.random() < 0.5 else [part, obj]
+                pool.append(out)
+                return out
             return obj
         obj, kind = gen_scalar(rng)
         kinds.append(kind)
